@@ -20,6 +20,9 @@ type vParty struct {
 	RKG RelinearizationKeyGenProtocol
 	GKG GaloisKeyGenProtocol
 	EKG EvaluationKeyGenProtocol
+	CKS KeySwitchProtocol
+	PCKS PublicKeySwitchProtocol
+	SkOut *rlwe.SecretKey
 }
 
 type vCtx struct {
@@ -58,9 +61,18 @@ func VerifSetup_Ctx(i int, algebraic bool) *vCtx {
 	c := &vCtx{Params: params, Kgen: rlwe.NewKeyGenerator(params)}
 	for p := 0; p < vMaxParties; p++ {
 		crs, _ := sampling.NewKeyedPRNG([]byte{'c', 'r', 's'})
+		cks, err := NewKeySwitchProtocol(params, ring.DiscreteGaussian{Sigma: 8, Bound: 48})
+		if err != nil {
+			panic(err)
+		}
+		pcks, err := NewPublicKeySwitchProtocol(params, ring.DiscreteGaussian{Sigma: 8, Bound: 48})
+		if err != nil {
+			panic(err)
+		}
 		c.Parties = append(c.Parties, &vParty{Sk: rlwe.NewSecretKey(params), CRS: crs,
 			CKG: NewPublicKeyGenProtocol(params), RKG: NewRelinearizationKeyGenProtocol(params),
-			GKG: NewGaloisKeyGenProtocol(params), EKG: NewEvaluationKeyGenProtocol(params)})
+			GKG: NewGaloisKeyGenProtocol(params), EKG: NewEvaluationKeyGenProtocol(params),
+			CKS: cks, PCKS: pcks, SkOut: rlwe.NewSecretKey(params)})
 	}
 	c.SkSum = rlwe.NewSecretKey(params)
 	c.SkOut = rlwe.NewSecretKey(params)
